@@ -12,6 +12,7 @@ import (
 
 	"verif/corpus"
 	"verif/ev"
+	"verif/oneline"
 	"verif/oracle/gonorm"
 	"verif/tc"
 	"verif/tgen"
@@ -86,6 +87,10 @@ func hasLineEndingChild(ns []parser.Node) bool {
 			continue
 		}
 		if _, ok := n.(parser.WhitespaceTrailer); !ok {
+			return true
+		}
+		// an element laid out as a block takes its parent with it
+		if el, ok := n.(parser.Element); ok && (el.IndentChildren || hasLineEndingChild(el.Children)) {
 			return true
 		}
 	}
@@ -290,6 +295,17 @@ func TestPropSeeds(t *testing.T) {
 		check(t, sd.Text, sd.Name+": ")
 		check(t, crlf(sd.Text), sd.Name+" (CRLF): ")
 	}
+}
+
+// TestPropOneLiners enumerates the one-line family completely (package oneline).
+func TestPropOneLiners(t *testing.T) {
+	shard, shards := ev.Shard()
+	n := 0
+	oneline.Each(shard, shards, func(name, src string) {
+		n++
+		check(t, src, name+": ")
+	})
+	rec.ClassN("one-line family (enumerated completely)", n)
 }
 
 func TestPropGenerated(t *testing.T) {
